@@ -892,9 +892,12 @@ impl<S: VhostUserBackendReqHandler> BackendReqHandler<S> {
         // If Bit 8 is unset, the data must contain a file descriptor.
         let has_fd = (msg.value & 0x100u64) == 0;
 
+        // `take_single_file()` also yields `None` for two or more files: count them first so that
+        // a message flagged "no file descriptor" is rejected whenever any descriptor is attached.
+        let nr_files = files.as_ref().map_or(0, |f| f.len());
         let file = take_single_file(files);
 
-        if has_fd && file.is_none() || !has_fd && file.is_some() {
+        if has_fd && file.is_none() || !has_fd && nr_files != 0 {
             return Err(Error::InvalidMessage);
         }
 
